@@ -137,16 +137,23 @@ theorem transform_rows_present :
     (transformTable.any (fun r => r.src == .angularFourier && r.dst == .time && r.scale.isSome)) := by
   decide
 
-/-- `x.as_constant()` inside `/` replaces the divisor's units by the constant class default:
-    harmless for every domain whose immittance default has the dimension of the constant one.
-    PARTIAL: the time domain is excluded (Ω/s becomes Ω) -- real results there are wrong by a
-    factor of seconds; the oracle reports them (family
-    `division-by-unchanging-time-domain-immittance`).
-    Full statement: the same without `d ≠ .time`. -/
-theorem coerce_keeps_dimension_partial :
-    ∀ d ∈ Domain.all, d ≠ .superposition → d ≠ .time → ∀ q ∈ [Quantity.impedance, .admittance],
-      dimU (defaultUnits tables (exprmapM tables q .constant) q) = dimU (defaultUnits tables d q) := by
-  decide
+/-! ### structural facts about the operator code (read by the translator on every run) -/
+
+/-- `__truediv__` restores the divisor's units after the immittance-to-constant coercion, as
+    `__mul__` does (finding C18-F19 when false) -/
+theorem flag_div_restores_units : tables.flags.divRestoresUnits = true := by decide
+
+/-- `__pow__` with a general exponent returns the generic class with `units ** n`
+    (finding C18-F18 when false) -/
+theorem flag_pow_sets_units : tables.flags.powSetsUnits = true := by decide
+
+/-- the immittance mixins' `__rtruediv__` set the units of the reciprocal from the operands
+    (finding C18-F19b when false) -/
+theorem flag_recip_sets_units : tables.flags.recipSetsUnits = true := by decide
+
+/-- the omega-domain special cases of `__compat_add__` come after a test on the quantities
+    (finding C18-F20, first half, when false) -/
+theorem flag_omega_needs_quantity : tables.flags.omegaNeedsQuantity = true := by decide
 
 /-! ## 2. `*` and `/`: units multiply, dimensions add, refusals -/
 
@@ -262,7 +269,7 @@ theorem witness_mul_refused : mulM tables ⟨.time, .voltage, ⟨1, 0, 0, 0, 0, 
 
 /-- `/`: which branch is taken -/
 theorem div_reflected (a x : Opd) (h : reflectedDiv a x = true) :
-    divM T a x = recipImmittance T x := by simp [divM, h]
+    divM T a x = recipImmittance T a.units x := by simp [divM, h]
 
 theorem div_only_from_table (a x : Opd) (d : Domain) (q : Quantity) (u : U)
     (h : divCore T a x = .ok d q u) :
@@ -283,7 +290,7 @@ theorem div_only_from_table (a x : Opd) (d : Domain) (q : Quantity) (u : U)
 
 theorem div_refuses_absent (a x : Opd)
     (h1 : ∀ r, (constify a.q, constify x.q, r) ∉ T.div)
-    (hc : divCompat T a (coerceImmittance T x false) = true) :
+    (hc : divCompat T a (coerceImmittance T x T.flags.divRestoresUnits) = true) :
     divCore T a x = .err .quantities := by
   have l1 : lookup2 T.div (constify a.q) (constify x.q) = none := by
     cases h : lookup2 T.div (constify a.q) (constify x.q) with
@@ -291,16 +298,16 @@ theorem div_refuses_absent (a x : Opd)
     | some r => exact absurd (lookup2_mem h) (h1 r)
   simp [divCore, hc, divLookup, coerce_keeps_quantity, l1]
 
-/-- `op_units` for `/`: units of the numerator divided by the units of the divisor *after* the
-    immittance-to-constant coercion (`coerce_keeps_dimension_partial` says when that matters) -/
-theorem op_units_div (a x : Opd) (d : Domain) (q : Quantity) (u : U)
-    (h : divCore T a x = .ok d q u) : u = a.units - (coerceImmittance T x false).units := by
-  simp only [divCore] at h
+/-- `op_units` for `/` (code with `x.units = xunits` in `__truediv__`): the units of a quotient
+    are exactly the quotient of the operands' units -/
+theorem op_units_div (hf : T.flags.divRestoresUnits = true) (a x : Opd) (d : Domain) (q : Quantity)
+    (u : U) (h : divCore T a x = .ok d q u) : u = a.units - x.units := by
+  simp only [divCore, hf] at h
   split at h
   · simp at h
   · split at h
     · simp at h
-    · simp only [Outcome.ok.injEq] at h
+    · simp only [Outcome.ok.injEq, coerce_keeps_units] at h
       exact h.2.2.symm
 
 theorem div_quantity_dimension
@@ -311,32 +318,32 @@ theorem div_quantity_dimension
   have := hT _ hr
   simpa using this
 
-/-- HEADLINE for `/` (non-reflected path) -/
+/-- HEADLINE for `/` (non-reflected path): every quotient the operator returns has the units
+    and the quantity implied by its operands, in every domain (the former exclusion of the
+    time domain, finding C18-F19, is gone with `flag_div_restores_units`) -/
 theorem div_consistent (a x : Opd) (d : Domain) (q : Quantity) (u : U)
     (h : divCore tables a x = .ok d q u)
-    (ha : (dimU a.units).va = dimQ a.q)
-    (hx : (dimU (coerceImmittance tables x false).units).va = dimQ x.q) :
-    (dimU u).va = dimQ q ∧ dimU u = dimU a.units - dimU (coerceImmittance tables x false).units := by
-  have h1 : dimU u = dimU a.units - dimU (coerceImmittance tables x false).units := by
-    rw [op_units_div tables a x d q u h, dimU_sub]
+    (ha : (dimU a.units).va = dimQ a.q) (hx : (dimU x.units).va = dimQ x.q) :
+    (dimU u).va = dimQ q ∧ dimU u = dimU a.units - dimU x.units := by
+  have h1 : dimU u = dimU a.units - dimU x.units := by
+    rw [op_units_div tables flag_div_restores_units a x d q u h, dimU_sub]
   have h2 := div_quantity_dimension tables div_dim a x d q u h
   exact ⟨by rw [h1, va_sub, ha, hx, h2], h1⟩
 
-/-- the reflected path (`1/Z`, `3/Y` with a constant numerator of the generic class) returns the
-    reciprocal immittance with its class default, which is labelled consistently -/
-theorem recip_consistent (x : Opd) (hx : x.q = .impedance ∨ x.q = .admittance)
-    (hd : x.dom ≠ .superposition) :
-    ∃ d q u, recipImmittance tables x = .ok d q u ∧ (dimU u).va = dimQ q ∧
-      dimQ q = subVA (0, 0) (dimQ x.q) := by
-  have key : ∀ d ∈ Domain.all, d ≠ .superposition → ∀ q ∈ [Quantity.impedance, .admittance],
-      (dimU (defaultUnits tables (exprmapM tables q (symDomain d)) q)).va = dimQ q ∧
-      (dimU (defaultUnits tables (exprmapM tables q .constant) q)).va = dimQ q := by decide +kernel
+/-- the reflected path (`1/Z`, `3/Y` with a constant numerator of the generic class, and
+    `Z ** -1`): the reciprocal immittance carries the numerator's units over the operand's, so
+    it is labelled consistently whenever the operand is and the numerator is dimensionless in
+    (V, A) -- in every domain, the time domain included (finding C18-F19b is gone with
+    `flag_recip_sets_units`) -/
+theorem recip_consistent (nu : U) (x : Opd) (hq : x.q = .impedance ∨ x.q = .admittance)
+    (hnu : (dimU nu).va = (0, 0)) (hx : (dimU x.units).va = dimQ x.q) :
+    ∃ d q u, recipImmittance tables nu x = .ok d q u ∧ dimU u = dimU nu - dimU x.units ∧
+      (dimU u).va = dimQ q := by
   unfold recipImmittance
-  rcases hx with hq | hq <;> simp only [hq] <;> split
-  · exact ⟨_, _, _, rfl, (key _ (domain_mem_all _) hd .admittance (by simp)).2, by decide⟩
-  · exact ⟨_, _, _, rfl, (key _ (domain_mem_all _) hd .admittance (by simp)).1, by decide⟩
-  · exact ⟨_, _, _, rfl, (key _ (domain_mem_all _) hd .impedance (by simp)).2, by decide⟩
-  · exact ⟨_, _, _, rfl, (key _ (domain_mem_all _) hd .impedance (by simp)).1, by decide⟩
+  simp only [flag_recip_sets_units, if_true]
+  refine ⟨_, _, _, rfl, dimU_sub _ _, ?_⟩
+  rw [dimU_sub, va_sub, hnu, hx]
+  rcases hq with hq | hq <;> simp [hq, subVA, dimQ]
 
 theorem witness_div_voltage_current : divM tables ⟨.laplace, .voltage, ⟨1, 0, 0, 0, 0, -1, 0, 0⟩, false, false, false⟩
     ⟨.laplace, .current, ⟨0, 1, 0, 0, 0, -1, 0, 0⟩, false, false, false⟩ =
@@ -350,72 +357,101 @@ def omegaPair (d e : Domain) : Bool :=
   (d = .angularFrequencyResponse && e = .angularFourier) ||
   (d = .angularFourier && e = .angularFrequencyResponse)
 
-/-- `add_refuses`: operands with different defined quantities, or in different non-constant
-    domains, are refused under every setting of loose_units / check_units / canonical_units,
-    whatever their units and values.
-    PARTIAL: the two omega-domain pairs are excluded -- there the code accepts the sum (and
-    `==` compares values) without looking at the quantities; real results are reported by the
-    oracle (family `omega-domain-pairs-accepted`).
+/-- `add_refuses`, first half: operands with different defined quantities are refused under
+    every setting of loose_units / check_units / canonical_units, whatever their domains, units
+    and values (FULL: with the quantity test in front of the omega-domain cases,
+    `flag_omega_needs_quantity`, there is no exception left) -/
+theorem add_refuses_quantities (hf : T.flags.omegaNeedsQuantity = true) (c : Cfg) (a x : Opd)
+    (ha : a.q.isDefined = true) (hx : x.q.isDefined = true) (hne : a.q ≠ x.q) :
+    ∃ e, compatAdd T c a x = .error e := by
+  unfold compatAdd
+  cases unitsClash T c a x
+  · simp only [Bool.false_eq_true, if_false]
+    unfold compatClass compatRules
+    apply firstMatch_spec (fun r => ∃ e, r = Except.error e) _ _ _ ⟨_, rfl⟩
+    intro r hr hg
+    have hau : a.q ≠ .undefined := by intro e; rw [e] at ha; simp [Quantity.isDefined] at ha
+    have hxu : x.q ≠ .undefined := by intro e; rw [e] at hx; simp [Quantity.isDefined] at hx
+    have hog : omegaGuard T c a x = false := by
+      simp [omegaGuard, hf, quantitiesCompatible, hne, hau, hxu]
+    simp only [compatRulesHead, compatRulesTail, List.cons_append, List.nil_append, List.mem_cons,
+      List.mem_nil_iff, or_false] at hr
+    rcases hr with rfl | rfl | rfl | rfl | rfl | rfl | rfl | rfl | rfl | rfl | rfl | rfl | rfl <;>
+      first
+        | exact ⟨_, rfl⟩
+        | (rw [hog] at hg; simp at hg; done)
+        | (exfalso; simp [hne, hau, hxu] at hg; done)
+  · exact ⟨.units, by simp⟩
+
+/-- the instance for the code as it is now -/
+theorem add_refuses_quantities_now (c : Cfg) (a x : Opd)
+    (ha : a.q.isDefined = true) (hx : x.q.isDefined = true) (hne : a.q ≠ x.q) :
+    ∃ e, compatAdd tables c a x = .error e :=
+  add_refuses_quantities tables flag_omega_needs_quantity c a x ha hx hne
+
+/-- `add_refuses`, second half: operands in different non-constant domains are refused under
+    every setting.
+    PARTIAL: the two omega-domain pairs are excluded -- there the code deliberately accepts
+    operands of compatible quantities ("For phasor comparisons", pinned by seven tests of the
+    suite); real results are reported by the oracle (family `omega-domain-pairs-accepted`,
+    finding C18-F20).
     Full statement: the same without `omegaPair a.dom x.dom = false`. -/
-theorem add_refuses_partial (c : Cfg) (a x : Opd)
-    (h : mustRefuse a.q x.q (isConst T a.dom) (isConst T x.dom) (a.dom == x.dom) = true)
+theorem add_refuses_domains_partial (c : Cfg) (a x : Opd)
+    (hca : isConst T a.dom = false) (hcx : isConst T x.dom = false) (hd : a.dom ≠ x.dom)
     (ho : omegaPair a.dom x.dom = false) :
     ∃ e, compatAdd T c a x = .error e := by
   unfold omegaPair at ho
   rw [Bool.or_eq_false_iff, Bool.or_eq_false_iff, Bool.or_eq_false_iff] at ho
   obtain ⟨⟨⟨o1, o2⟩, o3⟩, o4⟩ := ho
-  unfold mustRefuse at h
-  rw [Bool.or_eq_true] at h
   unfold compatAdd
   cases unitsClash T c a x
   · simp only [Bool.false_eq_true, if_false]
     unfold compatClass compatRules
-    rcases h with h | h
-    · -- different defined quantities: every enabled rule is an error
-      apply firstMatch_spec (fun r => ∃ e, r = Except.error e) _ _ _ ⟨_, rfl⟩
-      intro r hr hg
-      rw [Bool.and_eq_true, Bool.and_eq_true] at h
-      obtain ⟨⟨ha, hx⟩, hne⟩ := h
-      have hne' : a.q ≠ x.q := by simpa using hne
-      have hau : a.q ≠ .undefined := by intro e; rw [e] at ha; simp [Quantity.isDefined] at ha
-      have hxu : x.q ≠ .undefined := by intro e; rw [e] at hx; simp [Quantity.isDefined] at hx
-      simp only [compatRulesHead, compatRulesTail, List.cons_append, List.nil_append, List.mem_cons,
-        List.mem_nil_iff, or_false] at hr
-      rcases hr with rfl | rfl | rfl | rfl | rfl | rfl | rfl | rfl | rfl | rfl | rfl | rfl | rfl <;>
+    rw [firstMatch_append]
+    apply firstMatch_spec_enabled (fun r => ∃ e, r = Except.error e)
+    · intro r hr hg
+      simp only [compatRulesHead, List.mem_cons, List.mem_nil_iff, or_false] at hr
+      rcases hr with rfl | rfl | rfl | rfl | rfl | rfl | rfl | rfl | rfl | rfl | rfl <;>
         first
           | exact ⟨_, rfl⟩
-          | (rw [o1] at hg; cases hg)
-          | (rw [o2] at hg; cases hg)
-          | (rw [o3] at hg; cases hg)
-          | (rw [o4] at hg; cases hg)
-          | (exfalso; simp [hne', hau, hxu] at hg)
-    · -- different non-constant domains: the domain test is enabled and everything enabled
-      -- before it is an error
-      rw [firstMatch_append]
-      rw [Bool.and_eq_true, Bool.and_eq_true] at h
-      obtain ⟨⟨hca, hcx⟩, hd⟩ := h
-      have hca' : isConst T a.dom = false := by simpa using hca
-      have hcx' : isConst T x.dom = false := by simpa using hcx
-      have hd' : a.dom ≠ x.dom := by simpa using hd
-      apply firstMatch_spec_enabled (fun r => ∃ e, r = Except.error e)
-      · intro r hr hg
-        simp only [compatRulesHead, List.mem_cons, List.mem_nil_iff, or_false] at hr
-        rcases hr with rfl | rfl | rfl | rfl | rfl | rfl | rfl | rfl | rfl | rfl | rfl <;>
-          first
-            | exact ⟨_, rfl⟩
-            | (rw [o1] at hg; cases hg)
-            | (rw [o2] at hg; cases hg)
-            | (rw [o3] at hg; cases hg)
-            | (rw [o4] at hg; cases hg)
-            | (exfalso; simp [hca', hcx', hd'] at hg)
-      · exact ⟨(a.dom != x.dom, .error .domains), by simp [compatRulesHead], by simpa using hd'⟩
+          | (simp only [o1, Bool.and_false] at hg; cases hg)
+          | (simp only [o2, Bool.and_false] at hg; cases hg)
+          | (simp only [o3, Bool.and_false] at hg; cases hg)
+          | (simp only [o4, Bool.and_false] at hg; cases hg)
+          | (exfalso; simp [hca, hcx, hd] at hg; done)
+    · exact ⟨(a.dom != x.dom, .error .domains), by simp [compatRulesHead], by simpa using hd⟩
   · exact ⟨.units, by simp⟩
 
-/-- ... and such expressions never compare equal: `==` returns False without comparing values -/
-theorem eq_false_when_refused_partial (c : Cfg) (a x : Opd)
+/-- both halves in the words of the spec predicate `mustRefuse` -/
+theorem add_refuses_partial (hf : T.flags.omegaNeedsQuantity = true) (c : Cfg) (a x : Opd)
     (h : mustRefuse a.q x.q (isConst T a.dom) (isConst T x.dom) (a.dom == x.dom) = true)
-    (ho : omegaPair a.dom x.dom = false) : eqM T c a x = none := by
-  obtain ⟨e, he⟩ := add_refuses_partial T c a x h ho
+    (ho : omegaPair a.dom x.dom = false ∨
+      (a.q.isDefined = true ∧ x.q.isDefined = true ∧ a.q ≠ x.q)) :
+    ∃ e, compatAdd T c a x = .error e := by
+  rcases ho with ho | ⟨ha, hx, hne⟩
+  · unfold mustRefuse at h
+    rw [Bool.or_eq_true] at h
+    rcases h with h | h
+    · rw [Bool.and_eq_true, Bool.and_eq_true] at h
+      exact add_refuses_quantities T hf c a x h.1.1 h.1.2 (by simpa using h.2)
+    · rw [Bool.and_eq_true, Bool.and_eq_true] at h
+      exact add_refuses_domains_partial T c a x (by simpa using h.1.1) (by simpa using h.1.2)
+        (by simpa using h.2) ho
+  · exact add_refuses_quantities T hf c a x ha hx hne
+
+/-- ... and such expressions never compare equal: `==` returns False without comparing values -/
+theorem eq_false_when_refused_partial (hf : T.flags.omegaNeedsQuantity = true) (c : Cfg) (a x : Opd)
+    (h : mustRefuse a.q x.q (isConst T a.dom) (isConst T x.dom) (a.dom == x.dom) = true)
+    (ho : omegaPair a.dom x.dom = false ∨
+      (a.q.isDefined = true ∧ x.q.isDefined = true ∧ a.q ≠ x.q)) : eqM T c a x = none := by
+  obtain ⟨e, he⟩ := add_refuses_partial T hf c a x h ho
+  simp [eqM, he]
+
+/-- different defined quantities never compare equal (FULL) -/
+theorem eq_false_when_quantities_differ (c : Cfg) (a x : Opd)
+    (ha : a.q.isDefined = true) (hx : x.q.isDefined = true) (hne : a.q ≠ x.q) :
+    eqM tables c a x = none := by
+  obtain ⟨e, he⟩ := add_refuses_quantities_now c a x ha hx hne
   simp [eqM, he]
 
 /-- the setting `canonical_units` does not influence any operator -/
@@ -506,6 +542,30 @@ theorem pow_two_consistent (a : Opd) (d : Domain) (q : Quantity) (u : U)
     (dimU u).va = dimQ q ∧ dimU u = dimU a.units + dimU a.units := by
   rw [pow_two] at h
   exact mul_consistent a a d q u h hg ha ha
+
+/-- a general integer exponent (code with `ret.units = self.units ** x.sympy`): the result is a
+    generic expression (no quantity is claimed) whose units are the operand's units to the n-th
+    power, so its SI dimension is n times the operand's (finding C18-F18 is gone with
+    `flag_pow_sets_units`) -/
+theorem pow_general (hf : T.flags.powSetsUnits = true) (a : Opd) (n : Int) (h2 : n ≠ 2)
+    (h1 : n ≠ -1) :
+    ∃ d, powM T a n = .ok d .undefined (U.smul n a.units) ∧
+      dimU (U.smul n a.units) = ⟨n * (dimU a.units).v, n * (dimU a.units).a, n * (dimU a.units).t⟩ := by
+  unfold powM
+  simp only [h2, h1, hf, if_false, if_true]
+  split
+  · exact ⟨_, rfl, dimU_smul n a.units⟩
+  · exact ⟨_, rfl, dimU_smul n a.units⟩
+
+theorem pow_general_now (a : Opd) (n : Int) (h2 : n ≠ 2) (h1 : n ≠ -1) :
+    ∃ d, powM tables a n = .ok d .undefined (U.smul n a.units) :=
+  (pow_general tables flag_pow_sets_units a n h2 h1).imp (fun _ h => h.1)
+
+/-- `Z ** -1` is the reflected reciprocal -/
+theorem pow_minus_one_immittance (a : Opd) (hq : a.q = .impedance ∨ a.q = .admittance) :
+    powM T a (-1) = recipImmittance T U.one a := by
+  unfold powM
+  rcases hq with hq | hq <;> simp [hq]
 
 /-- a transform whose `self.change(...)` is returned directly carries the operand's units times
     the row's `units_scale`; every other route rebuilds the object with the class defaults -/
